@@ -105,6 +105,26 @@ long ext2fs_free_mem(void *ptr)
 	return 0;
 }
 
+/*
+ * "Never called" contracts.  lib/ext2fs/rbtree.c stores the parent pointer and the colour in one integer
+ * (rb_parent_color); every write through a pointer recovered from it costs CBMC 6.11 about 3*10^5 clauses per candidate
+ * object, so a formula that contains more than a handful of inlined ext2fs_rb_erase / ext2fs_rb_insert_color bodies
+ * does not fit into memory.  The mutating operations are therefore checked per SCENARIO (a condition on the inputs,
+ * the scenarios of an operation partition its input space).  In a scenario in which a tree mutator cannot be reached
+ * the unit lists it under "replace" with the contract below: the precondition FALSE becomes a proof obligation at
+ * every call site ("this call is unreachable"), and nothing at all is assumed about the callee - this is no model of
+ * rbtree.c.  Where a mutator is reachable it is the real code of rbtree.c (second translation unit).
+ * The declarations carry the contract only; they are inert in units that do not name the function under "replace".
+ */
+#include "config.h"
+#include <stdint.h>
+#include "ext2fs/ext2_types.h"
+#include "ext2fs/rbtree.h"
+struct ext2fs_rb_private;
+void ext2fs_rb_erase(struct rb_node *, struct rb_root *) REQUIRES(0) ASSIGNS();
+void ext2fs_rb_insert_color(struct rb_node *, struct rb_root *) REQUIRES(0) ASSIGNS();
+static int rb_insert_extent(__u64 start, __u64 count, struct ext2fs_rb_private *) REQUIRES(0) ASSIGNS();
+
 #include "lib/ext2fs/blkmap64_rb.c"
 
 #ifdef RB_NSYM
